@@ -731,6 +731,9 @@ func (s *programState) makeAllotment(monetary *big.Int, items []parser.Allotment
 	for i, item := range items {
 		switch allotment := item.(type) {
 		case *parser.RatioLiteral:
+			if allotment.HasZeroDenominator() {
+				return nil, DivideByZero{Range: allotment.Range, Numerator: allotment.Numerator}
+			}
 			rat := allotment.ToRatio()
 			totalAllotment.Add(totalAllotment, rat)
 			allotments = append(allotments, rat)
